@@ -53,6 +53,14 @@ def make_items(ctx, only=None):
             wl = {'files': [{'path': 'libtiny.so', 'v1': 'tiny_v0', 'v2': 'tiny_v1'}, {'path': 'lib/libshapes.so', 'v1': 'shapes_v0', 'v2': 'shapes_v2'},
                             {'path': 'lib/libcxx.so', 'v1': 'cxx_v0', 'v2': 'cxx_v0'}, {'path': 'libfnptr.so', 'v1': 'fnptr_v0', 'v2': 'fnptr_v0'}],
                   'format': 'dir', 'abignore': 'none', 'options': ['--no-default-suppression']}       # one changed pair among clean ones
+        if i == 2:
+            wl = {'files': [{'path': 'lib/libtiny.so', 'v1': 'tiny_v0', 'v2': 'tiny_v0'}, {'path': 'lib/tool', 'v1': 'tool_v0', 'v2': None},
+                            {'path': 'lib/libalias.so', 'v1': 'alias_v1', 'v2': 'alias_v1'}],
+                  'format': 'dir', 'abignore': 'none', 'options': ['--no-default-suppression']}       # a removed executable, every remaining pair clean
+        if i == 3:
+            wl = {'files': [{'path': 'libtiny.so', 'v1': 'tiny_v0', 'v2': 'tiny_v0'}, {'path': 'tool', 'v1': 'tool_v0_exec', 'v2': None},
+                            {'path': 'libmathx.so', 'v1': None, 'v2': 'mathx_v1'}],
+                  'format': 'tar', 'abignore': 'none', 'options': ['--no-default-suppression', '--no-added-binaries']}   # removed ET_EXEC executable, an added library, archive
         if len(set(K.side_prefixes(wl))) != 1:
             raise C.InfraError('workload %s leaves the region the reference model is valid in: ELF directory prefixes %r' % (name, K.side_prefixes(wl)))
         it = c31.prepare_item(ctx, name, wl, variant='plain')
